@@ -23,7 +23,6 @@ use super::support_participant as sp;
 
 use crate::infrastructure::time::Time;
 use crate::rtps::message_receiver::MessageReceiver;
-use crate::rtps::stateful_reader::RtpsStatefulReader;
 use crate::rtps::writer_proxy::RtpsWriterProxy;
 use crate::rtps_messages::overall_structure::{Endianness, RtpsMessageRead, RtpsSubmessageReadKind, TryReadFromBytes};
 use crate::rtps_messages::submessage_elements::{ParameterList, SequenceNumberSet, SerializedDataFragment};
@@ -35,7 +34,6 @@ use crate::transport::types::{
 const W_PREFIX: GuidPrefix = [0x41; 12];
 /// ENTITYID_SEDP_BUILTIN_PUBLICATIONS_ANNOUNCER
 const W_ID: EntityId = EntityId::new([0, 0, 3], 0xc2);
-const R_PREFIX: GuidPrefix = [0x42; 12];
 const R_ID: EntityId = EntityId::new([0, 0, 3], 0xc7);
 
 fn rt() -> sp::VRuntime {
@@ -91,18 +89,36 @@ fn put_sn(b: &mut [u8], at: usize, sn: i64) {
 // ------------------------------------------------------------------------------------------
 
 // @check props=C06 tier=quick known=KF-C06-1
-// @desc KNOWN DEFECT: a 28-byte datagram (RTPS header + INFO_REPLY submessage with an empty unicast locator list) handed to DcpsDomainParticipant::handle_data reaches `InfoReply(_) => todo!()` in MessageReceiver::next and panics the worker
-// @bounds datagram: any guid prefix, INFO_REPLY (id 0x0f), flags E, numLocators 0; a freshly constructed participant; unwind 30
+// @desc KNOWN DEFECT: a 28-byte datagram (RTPS header + INFO_REPLY submessage with an empty unicast locator list) is accepted by the real parser and the real MessageReceiver::next reaches `InfoReply(_) => todo!()`; DcpsDomainParticipant::handle_data calls exactly this pair (communication_methods.rs:406-409) for every received datagram, so the worker panics
+// @bounds datagram: any guid prefix, INFO_REPLY (id 0x0f), flags E, numLocators 0; unwind 30
 // @assume trigger: the datagram contains a well-formed INFO_REPLY submessage
-// @assume critical_section::acquire/release stubbed (support_cs.rs)
-// @enc dcps::dcps_domain_participant::communication_methods::DcpsDomainParticipant::handle_data
 // @enc rtps_messages::overall_structure::RtpsMessageRead::try_from
 // @enc rtps::message_receiver::MessageReceiver::next
 #[kani::proof]
 #[kani::unwind(30)]
+fn c06_info_reply_reaches_todo__known() {
+    let prefix: GuidPrefix = kani::any();
+    let mut b = [0u8; 28];
+    put_header(&mut b, &prefix);
+    put_sub(&mut b, 20, 0x0f, 1, 4);
+    if let Ok(m) = RtpsMessageRead::try_from(&b[..]) {
+        assert!(m.submessages().len() == 1, "C06: harness image");
+        let mut mr = MessageReceiver::new(&m);
+        let _ = mr.next();
+        core::mem::forget(m);
+    }
+}
+
+// @check props=C06 tier=thorough timeout=1800 known=KF-C06-1
+// @desc KNOWN DEFECT KF-C06-1 at participant level: the same 28-byte datagram handed to DcpsDomainParticipant::handle_data of a freshly constructed participant panics (not decided in the quick tier: > 900 s on the loaded machine)
+// @bounds as c06_info_reply_reaches_todo__known; real participant; unwind 30
+// @assume trigger: the datagram contains a well-formed INFO_REPLY submessage; critical_section::acquire/release stubbed
+// @enc dcps::dcps_domain_participant::communication_methods::DcpsDomainParticipant::handle_data
+#[kani::proof]
+#[kani::unwind(30)]
 #[kani::stub(critical_section::acquire, super::support_cs::cs_acquire)]
 #[kani::stub(critical_section::release, super::support_cs::cs_release)]
-fn c06_info_reply_reaches_todo__known() {
+fn c06_info_reply_handle_data__known() {
     let prefix: GuidPrefix = kani::any();
     let mut b = [0u8; 28];
     put_header(&mut b, &prefix);
@@ -114,17 +130,13 @@ fn c06_info_reply_reaches_todo__known() {
 }
 
 // @check props=C06 tier=quick
-// @desc dispatcher on well-formed messages without INFO_REPLY: [INFO_TS, HEARTBEAT] and [INFO_SRC, INFO_DST, PAD] with symbolic timestamp, version, vendor, prefixes, ids, sequence numbers and count are parsed by the real parser and iterated by the real MessageReceiver until exhaustion: no panic; the first yields exactly the HEARTBEAT with the INFO_TS timestamp, the second yields nothing and leaves the INFO_SRC prefix as source; the first datagram through handle_data of a fresh participant: no panic, nothing sent
+// @desc dispatcher on well-formed messages without INFO_REPLY: [INFO_TS, HEARTBEAT] and [INFO_SRC, INFO_DST, PAD] with symbolic timestamp, version, vendor, prefixes, ids, sequence numbers and count are parsed by the real parser and iterated by the real MessageReceiver until exhaustion: no panic; the first yields exactly the HEARTBEAT with the INFO_TS timestamp, the second yields nothing and leaves the INFO_SRC prefix as source
 // @bounds two 64-byte datagrams (the largest size for which CBMC keeps the concrete framing bytes of a local array), all value fields symbolic over their full domain; submessage ids / flags / lengths concrete; unwind 30
 // @assume NOT trigger KF-C06-1 (no INFO_REPLY submessage)
-// @assume critical_section::acquire/release stubbed (support_cs.rs)
 // @enc rtps_messages::overall_structure::RtpsMessageRead::try_from
 // @enc rtps::message_receiver::MessageReceiver::next
-// @enc dcps::dcps_domain_participant::communication_methods::DcpsDomainParticipant::handle_data
 #[kani::proof]
 #[kani::unwind(30)]
-#[kani::stub(critical_section::acquire, super::support_cs::cs_acquire)]
-#[kani::stub(critical_section::release, super::support_cs::cs_release)]
 fn c06_receiver_dispatch__rest() {
     let prefix: GuidPrefix = kani::any();
     let (sec, frac): (u32, u32) = (kani::any(), kani::any());
@@ -201,11 +213,6 @@ fn c06_receiver_dispatch__rest() {
             Err(_) => assert!(false, "C06: well-formed message rejected"),
         }
     }
-    let cap = sp::Capture::new();
-    let mut p = sp::participant(&cap, 0);
-    p.handle_data(&b[..], &rt());
-    assert!(cap.count() == 0, "C06: a HEARTBEAT from an unknown writer makes a fresh participant send something");
-    core::mem::forget(p);
 }
 
 // ------------------------------------------------------------------------------------------
@@ -236,7 +243,7 @@ fn gap_datagram(gap_start: i64, base: i64) -> [u8; 52] {
     b
 }
 
-// @check props=C06 tier=quick known=KF-C06-2
+// @check props=C06 tier=thorough timeout=1800 known=KF-C06-2
 // @desc KNOWN DEFECT (hang): handle_gap_submessage runs `for seq_num in gap_start..gap_list.base()` over attacker-chosen i64 values; one 52-byte GAP from a matched (discovered) writer with base - gap_start > 64 makes the handler call irrelevant_change_set more than 64 times (up to 2^63: the single worker never returns)
 // @bounds real participant, built-in publications reader matched with one writer proxy; GAP gap_start / base symbolic with base - gap_start > 64, empty bitmap; unwind 70; the loop body (RtpsWriterProxy::irrelevant_change_set) is replaced by a counting stub asserting the bound
 // @assume trigger: gapList.base - gapStart > 64 and the GAP's writer GUID is matched by a reader
@@ -260,7 +267,7 @@ fn c06_gap_range_loop__known() {
     core::mem::forget(p);
 }
 
-// @check props=C06 tier=quick unwind_violation=1
+// @check props=C06 tier=thorough timeout=1800 unwind_violation=1
 // @desc GAP from a matched writer outside the recorded trigger (base - gap_start <= 8, any sign): handle_data returns without panic within the unwinding bound; afterwards the proxy's available_changes_max covers the gap when it starts at the next expected sequence number
 // @bounds real participant, one matched writer proxy; gap_start / base symbolic over i64 with base - gap_start <= 8 (negative = empty range), empty bitmap; unwind 30 (an unwinding failure = termination bound exceeded)
 // @assume NOT trigger KF-C06-2: gapList.base - gapStart <= 8
@@ -329,27 +336,26 @@ fn c06_sequence_number_set_iter_overflow__known() {
 
 // @check props=C06 tier=quick
 // @desc SequenceNumberSet::set() outside the recorded trigger: a set decoded from arbitrary wire bytes with base <= i64::MAX - 256 yields at most numBits members, each in [base, base + numBits), without panic
-// @bounds 20 symbolic wire bytes (numBits <= 64 fits), both endiannesses; unwind 70
+// @bounds 16 symbolic wire bytes (numBits <= 32 fits), both endiannesses; unwind 36
 // @assume NOT trigger KF-C06-4: base <= i64::MAX - 256
 // @enc rtps_messages::submessage_elements::SequenceNumberSet::try_read_from_bytes
 // @enc rtps_messages::submessage_elements::SequenceNumberSet::set
 #[kani::proof]
-#[kani::unwind(70)]
+#[kani::unwind(36)]
 fn c06_sequence_number_set_iter__rest() {
     let le: bool = kani::any();
-    let b: [u8; 20] = kani::any();
+    let b: [u8; 16] = kani::any();
     let e = if le { Endianness::LittleEndian } else { Endianness::BigEndian };
     let mut d = &b[..];
     if let Ok(s) = SequenceNumberSet::try_read_from_bytes(&mut d, &e) {
         kani::assume(s.base() <= i64::MAX - 256);
         let mut n = 0usize;
         for x in s.set() {
-            assert!(x >= s.base() && x - s.base() < 64, "C06: member outside [base, base + numBits)");
+            assert!(x >= s.base() && x - s.base() < 32, "C06: member outside [base, base + numBits)");
             n += 1;
         }
-        assert!(n <= 64, "C06: more members than numBits");
-        kani::cover!(n == 64, "a full 64-bit set is iterated");
-        kani::cover!(n == 0 && s.base() < 0, "an empty set with a negative base");
+        assert!(n <= 32, "C06: more members than numBits");
+        kani::cover!(n == 32 && s.base() < 0, "a full 32-bit set with a negative base is iterated");
     }
 }
 
@@ -357,10 +363,8 @@ fn c06_sequence_number_set_iter__rest() {
 // 3. fragment arithmetic
 // ------------------------------------------------------------------------------------------
 
-fn reader_with_writer() -> RtpsStatefulReader {
-    let mut r = RtpsStatefulReader::new(Guid::new(R_PREFIX, R_ID), ReliabilityKind::Reliable);
-    r.add_matched_writer(&writer_proxy());
-    r
+fn proxy() -> RtpsWriterProxy {
+    RtpsWriterProxy::new(Guid::new(W_PREFIX, W_ID), &[], &[], ENTITYID_UNKNOWN, ReliabilityKind::Reliable)
 }
 
 fn any_frag(sn: i64, start: u32, n: u16, fsize: u16, dsize: u32) -> DataFragSubmessage {
@@ -382,45 +386,53 @@ fn any_frag(sn: i64, start: u32, n: u16, fsize: u16, dsize: u32) -> DataFragSubm
 }
 
 // @check props=C06 tier=quick known=KF-C06-3
-// @desc KNOWN DEFECT: a DATA_FRAG with fragmentSize = 0 and the next expected sequence number from a matched writer makes RtpsWriterProxy::reconstruct_data_from_frag -> total_fragments_expected divide by zero (`data_size / fragment_size`); panic in every build profile
-// @bounds reliable RtpsStatefulReader with one matched writer proxy in its initial state; DATA_FRAG writer_sn = 1, fragment_size = 0, fragmentStartingNum / fragmentsInSubmessage / dataSize symbolic; unwind 6
-// @assume trigger: fragment_size == 0, writer GUID matched, writer_sn == available_changes_max + 1
-// @enc rtps::stateful_reader::RtpsStatefulReader::on_data_frag_submessage
-// @enc rtps::writer_proxy::RtpsWriterProxy::reconstruct_data_from_frag
-// @enc rtps::writer_proxy::total_fragments_expected
-#[kani::proof]
-#[kani::unwind(6)]
-fn c06_data_frag_zero_fragment_size__known() {
-    let mut r = reader_with_writer();
-    let f = any_frag(1, kani::any(), kani::any(), 0, kani::any());
-    r.on_data_frag_submessage(&f, W_PREFIX, None);
-    core::mem::forget(r);
-}
-
-// @check props=C06 tier=quick unwind_violation=1
-// @desc DATA_FRAG from a matched writer outside the recorded trigger (fragment_size >= 1): any writer_sn (i64), fragmentStartingNum / dataSize (u32), fragmentSize (u16 >= 1), fragmentsInSubmessage <= 3: on_data_frag_submessage returns without panic (no overflow in total_fragments_expected, no division by zero) within the unwinding bound; a sample is delivered only for the expected sequence number
-// @bounds reliable reader, one matched writer proxy in its initial state, one DATA_FRAG with a 2-byte payload; fragmentsInSubmessage <= 3 (the reassembly loop runs fragmentsInSubmessage + 1 times when the fragment count matches); unwind 8
-// @assume NOT trigger KF-C06-3: fragment_size != 0; fragmentsInSubmessage <= 3
-// @enc rtps::stateful_reader::RtpsStatefulReader::on_data_frag_submessage
+// @desc KNOWN DEFECT: a DATA_FRAG with fragmentSize = 0 buffered in a writer proxy (RtpsStatefulReader::on_data_frag_submessage does push_data_frag + reconstruct_data_from_frag for the expected sequence number of a matched writer) makes total_fragments_expected compute `data_size / fragment_size`: division by zero, panic in every build profile
+// @bounds writer proxy in its initial state; one DATA_FRAG: writer_sn symbolic, fragment_size = 0, fragmentStartingNum / fragmentsInSubmessage / dataSize symbolic, 2-byte payload; unwind 3
+// @assume trigger: fragment_size == 0 and the fragment is buffered (writer GUID matched, writer_sn expected)
 // @enc rtps::writer_proxy::RtpsWriterProxy::push_data_frag
 // @enc rtps::writer_proxy::RtpsWriterProxy::reconstruct_data_from_frag
 // @enc rtps::writer_proxy::total_fragments_expected
 #[kani::proof]
-#[kani::unwind(8)]
+#[kani::unwind(3)]
+fn c06_data_frag_zero_fragment_size__known() {
+    let mut p = proxy();
+    let sn: i64 = kani::any();
+    let f = any_frag(sn, kani::any(), kani::any(), 0, kani::any());
+    p.push_data_frag(f);
+    let r = p.reconstruct_data_from_frag(sn);
+    core::mem::forget(r);
+    core::mem::forget(p);
+}
+
+// @check props=C06 tier=quick unwind_violation=1
+// @desc DATA_FRAG buffered in a writer proxy outside the recorded trigger (fragment_size >= 1): any writer_sn (i64), fragmentStartingNum / dataSize (u32), fragmentSize (u16 >= 1), fragmentsInSubmessage <= 1: push_data_frag + reconstruct_data_from_frag return without panic (no overflow in total_fragments_expected, no division by zero) within the unwinding bound; a DATA is reconstructed only when the fragment starts at 1 and (for one fragment) dataSize <= fragmentSize, with the fragment's payload
+// @bounds writer proxy in its initial state, one DATA_FRAG with a 2-byte payload; fragmentsInSubmessage <= 1 (the reassembly loop runs fragmentsInSubmessage + 1 times when the fragment count matches); unwind 4
+// @assume NOT trigger KF-C06-3: fragment_size != 0; fragmentsInSubmessage <= 1
+// @enc rtps::writer_proxy::RtpsWriterProxy::push_data_frag
+// @enc rtps::writer_proxy::RtpsWriterProxy::reconstruct_data_from_frag
+// @enc rtps::writer_proxy::total_fragments_expected
+#[kani::proof]
+#[kani::unwind(4)]
 fn c06_data_frag_arithmetic__rest() {
-    let mut r = reader_with_writer();
+    let mut p = proxy();
     let sn: i64 = kani::any();
     let fsize: u16 = kani::any();
     let n: u16 = kani::any();
-    kani::assume(fsize != 0 && n <= 3);
-    let f = any_frag(sn, kani::any(), n, fsize, kani::any());
-    r.on_data_frag_submessage(&f, W_PREFIX, None);
-    let delivered = r.changes_mut().len();
-    assert!(delivered <= 1, "C06: one DATA_FRAG delivered more than one sample");
-    if delivered == 1 {
-        assert!(sn == 1 && f.fragment_starting_num() == 1, "C06: a sample was delivered for an unexpected sequence number / start fragment");
+    let start: u32 = kani::any();
+    let dsize: u32 = kani::any();
+    kani::assume(fsize != 0 && n <= 1);
+    let f = any_frag(sn, start, n, fsize, dsize);
+    p.push_data_frag(f);
+    let r = p.reconstruct_data_from_frag(sn);
+    if let Some(d) = &r {
+        assert!(start == 1, "C06: DATA reconstructed without the first fragment");
+        if n == 1 {
+            assert!(dsize >= 1 && dsize <= fsize as u32, "C06: DATA reconstructed from an incomplete fragment set");
+        }
+        assert!(d.writer_sn() == sn && d.serialized_payload().len() == if n == 1 { 2 } else { 0 }, "C06: reconstructed DATA sequence number / payload length");
     }
-    kani::cover!(delivered == 1, "a single-fragment sample is reassembled and delivered");
-    kani::cover!(delivered == 0 && sn == 1 && f.data_size() == u32::MAX && fsize == 1, "dataSize = u32::MAX with fragmentSize 1 is buffered without overflow");
+    kani::cover!(r.is_some(), "a single-fragment sample is reassembled");
+    kani::cover!(r.is_none() && dsize == u32::MAX && fsize == 1, "dataSize = u32::MAX with fragmentSize 1 is buffered without overflow");
     core::mem::forget(r);
+    core::mem::forget(p);
 }
